@@ -1042,3 +1042,31 @@ package whispertool
 //@ func (*TimeSeries).Values
 //@   props C16 C08 C09 C10
 //@   ensures v: (ts == nil ==> len(result) == 0 && result.arr == 0) && (ts != nil ==> result === ts.values)
+
+//@ spec diffcntx(ra floats, oa int, rb floats, ob int, n int, tdiff bool) rec int = ite(n <= 0, 0, diffcntx(ra, oa, rb, ob, n - 1, tdiff) + ite((tdiff || !valueEqual(ra[oa + n - 1], rb[ob + n - 1])) && !isNaN(f64frombits(ra[oa + n - 1])), 1, 0))
+//@ spec tsDiffersX(ts *TimeSeries, ts2 *TimeSeries, i int) bool = (ts.fromTime != ts2.fromTime || !valueEqual(bits(ts.values[i]), bits(ts2.values[i]))) && !isNaN(ts.values[i])
+//@ spec tsDiffCntX(ts *TimeSeries, ts2 *TimeSeries, n int) int = diffcntx(row(ts.values), ts.values.off, row(ts2.values), ts2.values.off, n, ts.fromTime != ts2.fromTime)
+
+//@ func (*TimeSeries).DiffPointsExcludeSrcNaN
+//@   props C08
+//@   ensures absent: (ts == nil || ts2 == nil) && tsLen(ts) == tsLen(ts2) ==> len(result0) == 0 && len(result1) == 0
+//@   ensures unequal_len: tsLen(ts) != tsLen(ts2) ==> len(result0) == tsLen(ts) && len(result1) == tsLen(ts2)
+//@   ensures count: ts != nil && ts2 != nil && len(ts.values) == len(ts2.values) ==> len(result0) == tsDiffCntX(ts, ts2, len(ts.values)) && len(result1) == len(result0)
+//@   ensures fresh: (len(result0) == 0 || fresh(result0)) && (len(result1) == 0 || fresh(result1))
+//@   ensures each: ts != nil && ts2 != nil && len(ts.values) == len(ts2.values) ==> forall i :: 0 <= i && i < len(ts.values) && tsDiffersX(ts, ts2, i) ==>
+//@                 0 <= tsDiffCntX(ts, ts2, i) && tsDiffCntX(ts, ts2, i) < len(result0)
+//@                 && result0[tsDiffCntX(ts, ts2, i)].Time == tsTime(ts.fromTime, i, ts.step) && bits(result0[tsDiffCntX(ts, ts2, i)].Value) == bits(ts.values[i])
+//@                 && bits(result1[tsDiffCntX(ts, ts2, i)].Value) == bits(ts2.values[i])
+//@   ensures no_nan: forall j :: 0 <= j && j < len(result0) && tsLen(ts) == tsLen(ts2) ==> !isNaN(result0[j].Value)
+//@ loop (*TimeSeries).DiffPointsExcludeSrcNaN#0
+//@   invariant bounds: 0 <= i && i <= tsLen(ts) && tsLen(ts) == tsLen(ts2)
+//@   invariant fresh: ((len(pts) == 0 && pts.arr == 0) || pts.arr > old(top)) && ((len(pts2) == 0 && pts2.arr == 0) || pts2.arr > old(top))
+//@   invariant separate: (pts.arr == 0 && pts2.arr == 0) || pts.arr != pts2.arr
+//@   invariant count: len(pts) == tsDiffCntX(ts, ts2, i) && len(pts2) == len(pts) && len(pts) <= i
+//@   invariant next: tsDiffCntX(ts, ts2, i + 1) >= tsDiffCntX(ts, ts2, i)
+//@   invariant cur: mention(tsTime(ts.fromTime, i, ts.step))
+//@   invariant no_nan: forall j :: 0 <= j && j < len(pts) ==> !isNaN(pts[j].Value)
+//@   invariant each: forall k :: 0 <= k && k < i && tsDiffersX(ts, ts2, k) ==>
+//@                 0 <= tsDiffCntX(ts, ts2, k) && tsDiffCntX(ts, ts2, k) < len(pts)
+//@                 && pts[tsDiffCntX(ts, ts2, k)].Time == tsTime(ts.fromTime, k, ts.step) && bits(pts[tsDiffCntX(ts, ts2, k)].Value) == bits(ts.values[k])
+//@                 && bits(pts2[tsDiffCntX(ts, ts2, k)].Value) == bits(ts2.values[k])
